@@ -39,6 +39,16 @@ THEOREMS = [
     "SynKit.Gml.gml_two_ways_core",
     "SynKit.Gml.gml_two_ways_full_is_centre",
     "SynKit.Gml.gml_two_ways_centre_partial",
+    "SynKit.Repr.totalH_hToImplicit",
+    "SynKit.Gml.getRc_idem",
+    "SynKit.Gml.gml_two_ways_centre",
+    "SynKit.Gml.gml_roundtrip",
+    "SynKit.Gml.gml_roundtrip_reindexed",
+    "SynKit.Gml.gml_smart_roundtrip",
+    "SynKit.Gml.gml_two_ways_full",
+    "SynKit.C10.clauses_1_to_9",
+    "SynKit.C10.last_clause_needs_molShape",
+    "SynKit.C10.fullStatementMol",
 ]
 
 NODE_KEYS = ["element", "aromatic", "hcount", "charge", "neighbors", "atom_map"]
